@@ -188,6 +188,7 @@ pub fn fingerprint() -> u64 {
 
 /// Start a (sub-)execution: reset clock and fingerprint, arm the budget, install the tape.
 pub fn begin(budget: u64, tape: Tape) {
+    saphyr_parser::verif_hooks::set_work_budget(work_budget_for(budget));
     TICKS.with(|c| c.set(0));
     BUDGET.with(|c| c.set(budget));
     FP.with(|c| c.set(Fp::default().0));
@@ -197,12 +198,34 @@ pub fn begin(budget: u64, tape: Tape) {
 
 /// Reset only the clock (used between the candidates of one C10 run).
 pub fn rearm(budget: u64) {
+    saphyr_parser::verif_hooks::set_work_budget(work_budget_for(budget));
     TICKS.with(|c| c.set(0));
     BUDGET.with(|c| c.set(budget));
 }
 
 pub fn disarm() {
     BUDGET.with(|c| c.set(u64::MAX));
+    let w = saphyr_parser::verif_hooks::work_ticks();
+    saphyr_parser::verif_hooks::set_work_budget(u64::MAX);
+    // keep the count readable after disarming
+    saphyr_parser::verif_hooks::work_tick_n(w);
+}
+
+/// Library-internal work bound that goes with a seam budget of 200*(n+16): 150*(n+16).
+
+/// The budget for the library-internal work counter (loop iterations inside scanner, parser and
+/// string input, reported through the guarded hooks) that goes with a seam-call budget.
+/// Seam budget is 200*(n+16); internal work gets 150*(n+16) (observed maximum: 5.7 per char).
+fn work_budget_for(budget: u64) -> u64 {
+    if budget == u64::MAX || std::env::var_os("SIM_NO_WORK_BUDGET").is_some() {
+        u64::MAX
+    } else {
+        budget - budget / 4
+    }
+}
+
+pub fn work() -> u64 {
+    saphyr_parser::verif_hooks::work_ticks()
 }
 
 pub fn end() -> Tape {
